@@ -31,6 +31,25 @@
 //!   matching `sent`).
 //! * a (stale) reload replays the blocks the restored manager has not seen before anything else
 //!   (args.replayed); a reload switches that node's persister back to synchronous.
+//! * `"open"` per scenario: `normal` (helper-driven open, trace starts after channel_ready, ~1/2),
+//!   `manual` (open_channel..funding_signed by hand, `"zero_conf"` says whether node 1 accepted
+//!   0-conf; the funding tx is confirmed per node by `fund_confirm` steps) or `batch` (node 0 funds
+//!   two channels in one transaction -- the second one with a third node that is never looked at
+//!   again -- node 1 is a 0-conf acceptor; `batch_complete` delivers the second funding_signed).
+//!   In the last two modes `init` is taken before any channel_ready is delivered (`p0` = the first
+//!   per-commitment point, `p1` = -1) and `init_sent` lists what the two nodes already queued.
+//!   Until both sides are ChannelReady only deliver / fund_confirm / batch_complete / (re)connect /
+//!   injected channel_readys are enabled.
+//! * VIEW also has `ours`/`theirs`/`wfb` (AwaitingChannelReady flags) and `pc`/`pn` (interned
+//!   counterparty current / next point); every OBS has `holder` (re-verification of the monitor's
+//!   current holder commitment signatures); `validate_holder` log entries are 5-tuples
+//!   `[kind, number, txid8, n_htlc_sigs, n_nondust]`.
+//! * further adv kinds: cs_drop_htlc_sigs / cs_empty_htlc_sigs / cs_extra_htlc_sig /
+//!   cs_swap_htlc_sigs / cs_corrupt_htlc_sig (a cs carrying HTLC signatures is corrupted with
+//!   probability 1/3, nh in the args is the count AS DELIVERED); ready_dup_same / ready_dup_diff
+//!   (injected channel_ready, `deliver` step without matching `sent`); raa_subst (after an accepted
+//!   ready_dup_diff, the sender's next RAA carries the secret of the substituted point). Messages
+//!   are only corrupted while the receiver still has the channel.
 //! * everything a scenario allocates is leaked (about 2-3 MB per scenario): run at most a few hundred
 //!   scenarios per process.
 use std::cell::RefCell;
@@ -1037,9 +1056,12 @@ impl World {
 					match kind {
 						"cs_sig" => m.signature = olds[rng.below(olds.len() as u64) as usize],
 						"cs_drop_htlc_sigs" => {
+							// either a valid prefix stays (drop from the end) or arbitrary positions go
 							let r = 1 + rng.below(nh as u64);
+							let from_end = rng.below(2) == 0;
 							for _ in 0..r {
-								let i = rng.below(m.htlc_signatures.len() as u64) as usize;
+								let len = m.htlc_signatures.len();
+								let i = if from_end { len - 1 } else { rng.below(len as u64) as usize };
 								m.htlc_signatures.remove(i);
 							}
 						},
